@@ -2,7 +2,8 @@
    Model: coq/Model/NumText.v. *)
 From Coq Require Import List NArith ZArith Bool.
 Import ListNotations.
-From HV Require Import Model.Big Model.Rat Model.NumText Proofs.TextBase Proofs.RatSpec Proofs.TextAll.
+From HV Require Import Model.Big Model.Rat Model.NumText Model.Compile Proofs.TextBase Proofs.RatSpec Proofs.TextAll Proofs.CoroSpec.
+From HV Require Proofs.CoroProofs.
 Open Scope N_scope.
 
 (* conventional rendering: optional '-', then a non-empty string of digits 0-9A-Z below the base without a
@@ -24,6 +25,12 @@ Print Assumptions C09_int_roundtrip.
 Theorem C09_num_roundtrip : forall n, wfn n -> num_from_string (num_display n) = Some (if is_nan n then nan else n).
 Proof. exact num_roundtrip_t. Qed.
 Print Assumptions C09_num_roundtrip.
+
+(* the mechanism by which a level-2 compiled program restores the stacks computed at compile time: the number texts
+   embedded in the emitted source read back as the stack itself (values canonical; a NaN stored as the canonical NaN) *)
+Theorem C09_compiled_stack_texts : forall l, Forall canon_num l -> deser_stack (ser_stack l) = Some l.
+Proof. exact CoroProofs.stack_roundtrip. Qed.
+Print Assumptions C09_compiled_stack_texts.
 
 Theorem C09_to_string_base_range : forall a base, base = 0 \/ 36 < base -> to_string_base a base = TSBase.
 Proof. exact tsb_base_range. Qed.
